@@ -1474,7 +1474,7 @@ def _b_is_some_and(ev, n, a):
         return False
     if isinstance(o, V) and o.path == SOME and isinstance(f, Closure):
         return ev.apply_closure(f, [o.args[0]])
-    return Sym("is_some_and", (o,))
+    return _sym_apply(ev, "is_some_and", o, f)
 
 
 def _b_str_eq_ignore_case(ev, n, a):
@@ -1562,6 +1562,19 @@ def _callable(ev, f, args):
     return None
 
 
+
+def _sym_apply(ev, name, o, f, nargs=1):
+    """a combinator on a symbolic receiver: the closure is still folded on an opaque element so that the calls it makes
+    appear in the trace and in the resulting term"""
+    r = f
+    if isinstance(f, Closure):
+        try:
+            r = ev.apply_closure(f, [Sym("elem", (o,))] * nargs)
+        except (Return, Panic):
+            r = f
+    return Sym(name, (o, r))
+
+
 def _b_and_then(ev, n, a):
     o, f = a
     if isinstance(o, V):
@@ -1571,7 +1584,7 @@ def _b_and_then(ev, n, a):
             r = _callable(ev, f, [o.args[0]])
             if r is not None:
                 return r
-    return Sym("and_then", (o, f))
+    return _sym_apply(ev, "and_then", o, f)
 
 
 def _b_or_else(ev, n, a):
@@ -1587,7 +1600,7 @@ def _b_or_else(ev, n, a):
             r = _callable(ev, f, [o.args[0]])
             if r is not None:
                 return r
-    return Sym("or_else", (o, f))
+    return _sym_apply(ev, "or_else", o, f, 0 if "option" in str(n.get("fn", "")).lower() else 1)
 
 
 def _b_or(ev, n, a):
@@ -1608,7 +1621,7 @@ def _b_unwrap_or_else(ev, n, a):
         r = _callable(ev, f, [] if o.path == NONE else [o.args[0]]) if o.path in (NONE, ERR) else None
         if r is not None:
             return r
-    return Sym("unwrap_or_else", (o, f))
+    return _sym_apply(ev, "unwrap_or_else", o, f, 0)
 
 
 def _b_filter(ev, n, a):
@@ -1622,7 +1635,7 @@ def _b_filter(ev, n, a):
                 return o
             if r is False:
                 return V(NONE, ())
-    return Sym("filter", (o, f))
+    return _sym_apply(ev, "filter", o, f)
 
 
 def _b_is_ok_and(ev, n, a):
@@ -1633,7 +1646,7 @@ def _b_is_ok_and(ev, n, a):
         r = _callable(ev, f, [o.args[0]])
         if isinstance(r, bool):
             return r
-    return Sym("is_ok_and", (o,))
+    return _sym_apply(ev, "is_ok_and", o, f)
 
 
 def _b_then(ev, n, a):
